@@ -1169,3 +1169,91 @@ def check_dfa_to_regexp(ctx, rep, f, rule=RULE + '.M27'):
         rep.undecided(rule, f, 'def ' + f.name, 'outside the evaluator: {}'.format(e))
         return
     rep.holds(rule, f, 'def ' + f.name, 'on {} runs (thirteen model DFAs, two of them with three parallel symbols between a pair of states; two elimination orders) the expression denotes exactly the words up to length 4 (3 for three letters) that the DFA accepts'.format(cases))
+
+
+# ---- the Chomsky conversion, phase by phase, on model grammars ----------------------------------------------------------------------
+
+def _lang_fix(rules, k):
+    """variable -> words of length <= k it derives, for ANY grammar (epsilon rules, cycles): least fixpoint over finite sets"""
+    L = {lhs: set() for lhs, _ in rules}
+    for _, syms in rules:
+        for x, kind in syms:
+            if kind == 'Variable':
+                L.setdefault(x, set())
+    changed = True
+    while changed:
+        changed = False
+        for lhs, syms in rules:
+            cur = {''}
+            for x, kind in syms:
+                part = L[x] if kind == 'Variable' else {x}
+                cur = {u + v for u in cur for v in part if len(u + v) <= k}
+                if not cur:
+                    break
+            if not cur <= L[lhs]:
+                L[lhs] |= cur
+                changed = True
+    return L
+
+
+_GEN_GRAMMARS = {
+    'S -> aSb | eps': [('S', ['aSb', ''])],
+    'S -> AB | a; A -> aA | eps; B -> bB | A': [('S', ['AB', 'a']), ('A', ['aA', '']), ('B', ['bB', 'A'])],
+    'S -> ASA | aB; A -> B | S; B -> b | eps': [('S', ['ASA', 'aB']), ('A', ['B', 'S']), ('B', ['b', ''])],
+    'S -> abc | T; T -> S | cc': [('S', ['abc', 'T']), ('T', ['S', 'cc'])],
+    'S -> AAB; A -> a | eps; B -> b': [('S', ['AAB']), ('A', ['a', '']), ('B', ['b'])],
+    'S -> S | A; A -> eps': [('S', ['S', 'A']), ('A', [''])],
+    'S -> EaS | b; E -> eps': [('S', ['EaS', 'b']), ('E', [''])],
+    'S -> aXY | T; T -> XY | c; X -> a; Y -> b': [('S', ['aXY', 'T']), ('T', ['XY', 'c']), ('X', ['a']), ('Y', ['b'])],
+}
+_PHASES = ['cfg_add_new_start_variable_in_place', 'cfg_remove_epsilon_rules_in_place', 'cfg_eliminate_unit_rules_in_place', 'cfg_make_rules_of_length_two_in_place', 'cfg_eliminate_terminals_in_place']
+
+
+def check_chomsky_phases(ctx, rep, funcs, rule=RULE + '.M28'):
+    """the five phases of the Chomsky conversion applied in order to model grammars with epsilon rules, nullable chains, unit
+    cycles, long right-hand sides and terminals inside them (among them Sipser's example): after EVERY phase the start variable
+    derives the same words up to length 3 (least fixpoint computed by the analyser), the variables used are declared, and at
+    the end the grammar is in Chomsky normal form: rules A -> BC without the start variable on the right, A -> a, and the
+    empty right-hand side for the start variable only.  funcs: the five phase functions in pipeline order."""
+    K = 3
+    classes = dict(_CFG_CLASSES)
+    classes['Variable'] = lambda x: V(str(x))
+    classes['Terminal'] = lambda x: T(str(x))
+    cases = 0
+    f0 = funcs[0]
+    try:
+        for name, rules in _GEN_GRAMMARS.items():
+            for order in ('asc', 'desc'):
+                G = _grammar(rules)
+                G._f['epsilon'] = T('ε')
+                want = _lang_fix(_rules_of(G), K)['S']
+                for f in funcs:
+                    f0 = f
+                    ok, _ = _run(rule, rep, f, lambda: _interp(ctx, order, classes=classes, max_steps=2000000).call(f, [G]), 'on the grammar {} (after the earlier phases)'.format(name))
+                    if not ok:
+                        return
+                    cases += 1
+                    now = _rules_of(G)
+                    S = str(G._f['S'])
+                    have = _lang_fix(now, K).get(S, set())
+                    if have != want:
+                        extra, missing = sorted(have - want), sorted(want - have)
+                        rep.violates(rule, f, 'def ' + f.name, 'on the grammar {} (sets iterated in {} order) the phase changes the language: afterwards the start variable {}'.format(
+                            name, 'ascending' if order == 'asc' else 'descending', 'derives {!r}, which it did not'.format(extra[0]) if extra else 'no longer derives {!r}'.format(missing[0])))
+                        return
+                    used = {lhs for lhs, _ in now} | {x for _, syms in now for x, kind in syms if kind == 'Variable'}
+                    if not used <= {str(x) for x in G._f['V']} or S not in {str(x) for x in G._f['V']}:
+                        rep.violates(rule, f, 'def ' + f.name, 'on the grammar {} a variable used in the rules is not declared in V afterwards: {}'.format(name, sorted(used - {str(x) for x in G._f['V']})))
+                        return
+                final = _rules_of(G)
+                S = str(G._f['S'])
+                for lhs, syms in final:
+                    kinds = [kind for _, kind in syms]
+                    okr = (kinds == ['Terminal']) or (kinds == ['Variable', 'Variable'] and S not in [x for x, _ in syms]) or (kinds == [] and lhs == S)
+                    if not okr:
+                        rep.violates(rule, funcs[-1], 'def cfg_to_chomsky_in_place (pipeline)', 'on the grammar {} the rule {} -> {} is left after the five phases: the result is not in Chomsky normal form'.format(name, lhs, ' '.join(x for x, _ in syms) or 'eps'))
+                        return
+    except (Unsupported, RecursionError) as e:
+        rep.undecided(rule, f0, 'def ' + f0.name, 'outside the evaluator: {}'.format(e))
+        return
+    rep.holds(rule, funcs[-1], 'def cfg_to_chomsky_in_place (pipeline)', 'on {} phase runs (eight model grammars with epsilon rules, nullable chains, unit cycles, long right-hand sides, terminals inside them, a variable that already has the tail of a long rule among its alternatives; two iteration orders of sets) every phase keeps the words up to length 3 and the declared variables, and the final grammar is in Chomsky normal form'.format(cases))
